@@ -57,7 +57,8 @@ def parse_shape(t):
     assert pos[0] == len(t)
     return r
 
-def gen_shape(rng, depth, allow_enum=True, weights=None):
+def gen_shape(rng, depth, allow_enum=True, weights=None, codec_safe=False):
+    """codec_safe: only containers nanoserde 0.1.37 can encode (no VecDeque, no BTreeMap)"""
     if allow_enum and rng.random() < 0.08:
         return Sh('E')
     n = rng.choice([1, 2, 2, 3, 3, 4, 5, 6])
@@ -69,12 +70,12 @@ def gen_shape(rng, depth, allow_enum=True, weights=None):
         if s in ('Pi', 'Po', 'Pe'): fs.append(Fd(s))
         elif s == 'K':     # skipped fields of several types, so that `skip` is combined with other attribute items
             k = rng.choice([0, 0, 0, 1, 2, 3]) if depth > 0 else rng.choice([0, 0, 2, 3])
-            fs.append(Fd('K', c=k, sub=gen_shape(rng, depth - 1, allow_enum=False) if k == 1 else None))
-        elif s == 'L': fs.append(Fd('L', c=rng.randrange(3)))
+            fs.append(Fd('K', c=k, sub=gen_shape(rng, depth - 1, allow_enum=False, codec_safe=codec_safe) if k == 1 else None))
+        elif s == 'L': fs.append(Fd('L', c=rng.randrange(2 if codec_safe else 3)))
         elif s == 'U': fs.append(Fd('U', c=rng.randrange(4)))
-        elif s == 'M': fs.append(Fd('M', c=rng.randrange(2)))
-        elif s in ('R', 'Q'): fs.append(Fd(s, sub=gen_shape(rng, depth - 1, allow_enum=(s == 'R'))))
-        else: fs.append(Fd('N', c=rng.randrange(2), ko=rng.randrange(2), sub=gen_shape(rng, depth - 1, allow_enum=False)))
+        elif s == 'M': fs.append(Fd('M', c=0 if codec_safe else rng.randrange(2)))
+        elif s in ('R', 'Q'): fs.append(Fd(s, sub=gen_shape(rng, depth - 1, allow_enum=(s == 'R'), codec_safe=codec_safe)))
+        else: fs.append(Fd('N', c=0 if codec_safe else rng.randrange(2), ko=rng.randrange(2), sub=gen_shape(rng, depth - 1, allow_enum=False, codec_safe=codec_safe)))
     if all(f.strat == 'K' for f in fs):        # a struct with every field skipped does not compile (finding D5): keep one real field
         fs[rng.randrange(len(fs))] = Fd('Pi')
     return Sh('S', fs)
@@ -268,16 +269,21 @@ def setter_plan(sid, sh):
     mode = 'all' if int(sid) % 3 != 2 else 'optin'
     for i, f in enumerate(sh.fields):
         if f.strat == 'K' or (f.strat == 'N' and not f.ko): continue
-        if i % 5 == 3: continue
+        if opt_out(sid, i): continue
         if mode == 'optin' and i % 2 != 0: continue
-        plan[i] = f"cust_f{i}" if i % 5 == 4 else f"set_f{i}_with_diff"
+        plan[i] = f"cust_f{i}" if custom_name(sid, i) else f"set_f{i}_with_diff"
     return mode, plan
 
-def setter_attr(mode, i):
+# about every third setter has a custom name and every seventh field opts out, spread over field positions by the shape id,
+# so that every strategy meets every attribute combination
+def custom_name(sid, i): return (i + int(sid)) % 3 == 1
+def opt_out(sid, i): return (i + int(sid)) % 7 == 5
+
+def setter_attr(mode, i, sid):
     items = []
     if mode == 'optin' and i % 2 == 0: items.append('setter')
-    if i % 5 == 3: items.append('skip_setter')
-    if i % 5 == 4: items.append(f'setter_name = "cust_f{i}"')
+    if opt_out(sid, i): items.append('skip_setter')
+    if custom_name(sid, i): items.append(f'setter_name = "cust_f{i}"')
     return f"#[difference({', '.join(items)})]\n    " if items else ''
 
 def rust_types(sh, name, out, derives, struct_attr='', setters=None):
@@ -305,17 +311,17 @@ def rust_types(sh, name, out, derives, struct_attr='', setters=None):
             ty = ('HashMap' if f.c == 0 else 'BTreeMap') + f"<i64, {inner}>"
             attr = SPELL_RMAP[(i + len(name)) % len(SPELL_RMAP)] % ('key_only' if f.ko else 'key_and_value')
         if setters is not None:
-            attr = setter_attr(setters[0], i) + attr
+            attr = setter_attr(setters[0], i, setters[2]) + attr
         fields.append(f"    {attr}\n    pub {fn}: {ty}," if attr else f"    pub {fn}: {ty},")
         if setters is not None and i in setters[1]:
             setarms.append(f"            {i} => Some(self.{setters[1][i]}(<{ty} as Fconv>::fv(v, 0))),")
         fromv.append(f"            {fn}: <{ty} as Fconv>::fv(&fs[{i}], {1 if s == 'U' else 0}),")
         tov.append(f"            self.{fn}.tv({1 if s == 'U' else 0}),")
-    out.append(f"#[derive({derives})]\n{struct_attr}pub struct {name} {{\n" + '\n'.join(fields) + "\n}\n"
+    out.append(f"#[derive({derives})]\n#[cfg_attr(feature = \"ns\", derive(nanoserde::SerBin, nanoserde::DeBin))]\n#[cfg_attr(feature = \"sd\", derive(serde::Serialize, serde::Deserialize))]\n{struct_attr}pub struct {name} {{\n" + '\n'.join(fields) + "\n}\n"
                f"impl HasOptionMarker for {name} {{}}\nimpl Fconv for {name} {{\n    fn fv(v: &Val, _u: u8) -> Self {{\n        let fs = match v {{ Val::Struct(fs) => fs, _ => panic!(\"struct expected\") }};\n        {name} {{\n"
                + '\n'.join(fromv) + f"\n        }}\n    }}\n    fn tv(&self, _u: u8) -> Val {{\n        Val::Struct(vec![\n" + '\n'.join(tov) + "\n        ])\n    }\n}\n")
     if setters is not None:
-        out.append(f"impl SetField for {name} {{\n    fn set_field(&mut self, i: usize, v: &Val) -> Option<Option<<Self as StructDiff>::Diff>> {{\n        match i {{\n"
+        out.append(f"impl SetField for {name} {{\n    #[cfg(feature = \"gs\")]\n    fn set_field(&mut self, i: usize, v: &Val) -> Option<Option<<Self as StructDiff>::Diff>> {{\n        match i {{\n"
                    + '\n'.join(setarms) + "\n            _ => None,\n        }\n    }\n}\n")
     return name
 
@@ -327,14 +333,15 @@ def rust_module(shapes, derives="Debug, Clone, PartialEq, Difference", setters=F
         chunk = []
         if setters and sh.kind == 'S':
             mode, plan = setter_plan(sid, sh)
-            ty = rust_types(sh, f"T{sid}", chunk, derives, struct_attr=('#[difference(setters)]\n' if mode == 'all' else ''), setters=(mode, plan))
+            ty = rust_types(sh, f"T{sid}", chunk, derives, struct_attr=('#[difference(setters)]\n' if mode == 'all' else ''), setters=(mode, plan, sid))
         else:
             ty = rust_types(sh, f"T{sid}", chunk, derives)
             if sh.kind == 'S': chunk.append(f"impl SetField for T{sid} {{}}\n")
+        if sh.kind == 'S': chunk.append(f"impl Wire for T{sid} {{}}\n")
         out.append('\n'.join(chunk).replace('MAPEQ', 'key_only' if ko else 'key_and_value'))
         arms.append(f'        "{sid}" => run::<{ty}>(toks),')
     return ("// GENERATED by /verif/tools/gen_derive.py\n#![allow(non_camel_case_types, dead_code, unused_imports)]\n"
-            "use crate::support::*;\nuse std::collections::{BTreeMap, BTreeSet, HashMap, HashSet, LinkedList, VecDeque};\nuse structdiff::{Difference, StructDiff};\n\n"
+            "use crate::support::*;\n#[cfg(feature = \"ns\")]\nuse nanoserde::{DeBin, SerBin};\nuse std::collections::{BTreeMap, BTreeSet, HashMap, HashSet, LinkedList, VecDeque};\nuse structdiff::{Difference, StructDiff};\n\n"
             + '\n'.join(out) + "\npub fn dispatch(sid: &str, toks: &[&str]) -> String {\n    match sid {\n" + '\n'.join(arms)
             + '\n        _ => panic!("unknown shape"),\n    }\n}\n')
 
